@@ -1,6 +1,8 @@
 import FxpVerif.Model.Chk
 import FxpVerif.Model.Arith
 import FxpVerif.Model.Convert
+import FxpVerif.Model.Compare
+import FxpVerif.Model.Dtype
 /-! Line-protocol helpers for the correspondence driver (core Lean only). -/
 namespace Fxp.Proto
 
